@@ -384,6 +384,7 @@ wait:
 	}
 	runBoxCases(*outDir, res.Extra)
 	runHexCases(*seed, 4000, *outDir, res.Extra)
+	runDimCases(*seed, 8000, *outDir, res.Extra)
 	if err := res.Write(resPath); err != nil {
 		fmt.Fprintln(os.Stderr, "cssoracle:", err)
 		os.Exit(2)
